@@ -168,7 +168,7 @@ def judge(case, r, viol, what, obs):
         viol.add('corrupt_delivery', '%s: receiver got len=%d pgn=%05X (pre-empted at %s)' % (what, len(d[4]), d[2], locs), **tag)
     for d in ([] if case['mode'].startswith('x_in_') else W.deliv['A']):
         fd = layer == 'j1939-22'
-        okk = (not fd and len(d[4]) == 8 and d[4][0] == 19) or (fd and len(d[4]) >= 12 and (d[4][0] & 0xF) == 3)
+        okk = d[3] == 0x20 and len(W.deliv['A']) == 1          # the end-of-message acknowledgement notification (form not judged), once
         if not okk:
             viol.add('unexpected_delivery', '%s: originator listener got len=%d' % (what, len(d[4])), **tag)
     # a transfer that completes cleanly un-pre-empted must not end with a connection abort from either side under pre-emption
